@@ -74,6 +74,15 @@ type Expr struct {
 	ID  int       `json:"id,omitempty"`
 	Ops []StateOp `json:"ops,omitempty"`
 
+	// Code is the literal code block text including the braces (front-end checks only; ""
+	// = the recorder call / stub rendered by the printer).
+	Code string `json:"code,omitempty"`
+	// P is the source position (line, col, offset) of the node's first token; CodeP / LabelP
+	// those of the code block and the label identifier (front-end checks only).
+	P      *[3]int `json:"p,omitempty"`
+	CodeP  *[3]int `json:"codep,omitempty"`
+	LabelP *[3]int `json:"labelp,omitempty"`
+
 	// Scope is computed by (*Grammar).Analyze: the labels the code block receives, in order.
 	Scope []string `json:"scope,omitempty"`
 	// RuleOf is computed by Analyze: name of the rule that lexically contains the node.
@@ -87,6 +96,12 @@ type Rule struct {
 	Name    string `json:"name"`
 	Display string `json:"display,omitempty"` // display name *value* ("" = none)
 	Expr    *Expr  `json:"expr"`
+
+	// P, NameP, DisplayP: positions of the rule, its name and its display name (front-end checks).
+	P        *[3]int `json:"p,omitempty"`
+	DisplayP *[3]int `json:"displayp,omitempty"`
+	// DisplayRaw is the display name as spelled (with quotes), when it matters.
+	DisplayRaw string `json:"display_raw,omitempty"`
 
 	// LR (C08 profile): the rule is A <- A t1 / ... / A tn / b1 / ... / bm, stored in
 	// Expr exactly like that; LRTails / LRBases index the alternatives so that the
@@ -115,6 +130,9 @@ type Grammar struct {
 	StateIn  bool     `json:"state_in,omitempty"` // code blocks pass c.state to the recorder
 	Profile  string   `json:"profile,omitempty"`
 	NumIDs   int      `json:"num_ids"`
+	// Init is the initializer code block including braces (front-end checks; "" = default).
+	Init  string  `json:"init,omitempty"`
+	InitP *[3]int `json:"initp,omitempty"`
 
 	rules map[string]*Rule
 }
